@@ -75,6 +75,12 @@ def classify(fn: Fn, node: ast.AST, depth=0, seen=None) -> List[Role]:
     p = parent(node)
     if p is None:
         return [("UNCLASSIFIED", "no parent", node)]
+    # a use that is only reached when the value has just been found equal to one of some constants carries no more
+    # information than that comparison (classified on its own as LITERAL): whatever is done with it is a dispatch on them
+    if not isinstance(p, ast.Compare):
+        gc = guarded_constants(fn, node)
+        if gc is not None:
+            return [("LITERAL", gc, node)]
     # --- attribute / method on the text
     if isinstance(p, ast.Attribute) and p.value is node:
         gp = parent(p)
@@ -203,6 +209,43 @@ def classify(fn: Fn, node: ast.AST, depth=0, seen=None) -> List[Role]:
     if isinstance(p, ast.Raise):
         return [("MESSAGE", "raise", p)]
     return [("UNCLASSIFIED", type(p).__name__, p)]
+
+
+def guarded_constants(fn: Fn, use) -> Optional[List[str]]:
+    """Constants c1..cn such that every CFG path to the evaluation of *use* (a local name or a path expression holding
+    text) leaves a test `use == c` / `use in (c1..cn)` through its TRUE edge (resp. `!=` / `not in` through FALSE), with no
+    rebinding of the names of *use* in between; None if there is no such dominating test."""
+    if not isinstance(use, (ast.Name, ast.Attribute)) or not isinstance(getattr(use, "ctx", None), ast.Load):
+        return None
+    from .cfg import cfg_of
+    from .dataflow import _rd_of, cfg_node_of, expand_aliases
+    from .facts import conjuncts, disjuncts
+    g, rd = _rd_of(fn)
+    at = cfg_node_of(g, use)
+    if at is None:
+        return None
+    want = text(expand_aliases(fn, use), 400)
+    names = [n.id for n in ast.walk(use) if isinstance(n, ast.Name)]
+    best: Optional[List[str]] = None
+    for t in g.nodes:
+        if t.kind != "test" or t.id == at:
+            continue
+        for lab, parts, ops in (("T", conjuncts(t.ast), (ast.Eq, ast.In)), ("F", disjuncts(t.ast), (ast.NotEq, ast.NotIn))):
+            for c in parts:
+                if not (isinstance(c, ast.Compare) and len(c.ops) == 1 and isinstance(c.ops[0], ops)):
+                    continue
+                if text(expand_aliases(fn, c.left), 400) != want:
+                    continue
+                cs = _consts(fn, c.comparators[0])
+                if cs is None:
+                    continue
+                if any(rd.get(t.id, {}).get(nm, set()) != rd.get(at, {}).get(nm, set()) for nm in names):
+                    continue
+                # dominated by that outcome: unreachable once the edge is cut
+                reach = g.reachable(g.entry, follow_exc=False, edge_filter=lambda a, b, l, _t=t.id, _lab=lab: not (a == _t and l == _lab))
+                if at not in reach:
+                    best = cs if best is None else [x for x in best if x in cs]
+    return best
 
 
 def _is_condition(e) -> bool:
